@@ -133,7 +133,8 @@ def os_path_split(ex, args, kw):
     last = p.parts[-1]
     if not isinstance(last, str) and last[0] == "dir":
         raise Unsupported("os.path.split of a path ending in an unknown run of components")
-    return (PathVal(p.parts[:-1], p.absolute, False), PathVal([last], False, False))
+    # a literal last component is a plain python string again (so that it compares, sorts and hashes like one)
+    return (PathVal(p.parts[:-1], p.absolute, False), last if isinstance(last, str) else PathVal([last], False, False))
 
 
 @lib("os.path", "basename")
@@ -203,6 +204,10 @@ def path_eq(ex, a, b):
     hasdir = lambda p: any(not isinstance(q, str) and q[0] == "dir" for q in p.parts)
     if a.absolute != b.absolute or a.trailing != b.trailing:
         return False
+    # the same unknown leading run on both sides cancels
+    while a.parts and b.parts and not isinstance(a.parts[0], str) and not isinstance(b.parts[0], str) and \
+            a.parts[0][0] == "dir" and b.parts[0][0] == "dir" and a.parts[0][1] is b.parts[0][1]:
+        a, b = PathVal(a.parts[1:], a.absolute, a.trailing), PathVal(b.parts[1:], b.absolute, b.trailing)
     if hasdir(a) or hasdir(b):
         # a run stands for one or more components: the other side needs at least as many components
         for x, y in ((a, b), (b, a)):
